@@ -12,7 +12,10 @@ RULE = ("random well-formed forests (1-3 records, depth <= 5, non-contiguous and
         "line breaks inside entries); flat streams of arbitrary level sequences (00-99, no well-nesting), with unique and with "
         "colliding names, random REDEFINES targets; forests in which data names are repeated under different parents (cousin groups, "
         "elementary items) with REDEFINES inside the later groups, and forests reusing ancestor/sibling names; "
-        "first entry 66/77/88; one stream per known defect trigger (for finding 5: clean forests in which one to three elementary "
+        "one stream per known defect trigger (for finding 8, first-entry-special: a first entry of level 77 with/without picture, 88 named/FILLER, "
+        "66 RENAMES with/without THRU, followed by nothing / an 01 record / 05-level items / a record and further special entries / items of a "
+        "larger level number / a second special entry and items, each printed plainly and with random spelling; the same first entries in front of "
+        "generated well-formed records; flat random level sequences starting with 66/77/88; for finding 5: clean forests in which one to three elementary "
         "items or 88 levels carry a VALUE literal with a period followed by a blank; for finding 6: clean forests with contiguous or "
         "ragged levels in which all or a random half of the level numbers below 10 are printed with one digit; for finding 7: clean "
         "forests with REDEFINES in which the target of a REDEFINES clause, or the declaration it names, is respelled in lower or mixed case). "
@@ -126,6 +129,33 @@ HAND = [
 ]
 
 
+def first_special_forests():
+    """Known finding 8: every combination of a first entry of level 77 / 88 / 66 (each in two forms) with what may follow it:
+    nothing, an 01 record, 05-level items, a record and a further 66/77/88 entry behind it, items of a larger level number
+    (they are attached BELOW the first entry), a second special entry and items."""
+    firsts = [
+        lambda: G.node(77, "W", pic="X"), lambda: G.node(77, "W-GRP"),                                   # 77 with and without picture
+        lambda: G.node(88, "FLAG", value="'Y'"), lambda: G.node(88, None, filler=True, value="ZERO"),    # 88 named and FILLER
+        lambda: G.node(66, "R", renames=("A", "B")), lambda: G.node(66, "R", renames=("A", None)),       # 66 RENAMES a THRU b / a
+    ]
+    rec = lambda: G.node(1, "REC", children=[G.node(5, "A", pic="X"), G.node(5, "B", pic="9")])
+    follows = [
+        lambda: [],
+        lambda: [rec()],
+        lambda: [G.node(5, "A", pic="X"), G.node(5, "B", pic="9")],
+        lambda: [rec(), G.node(77, "W-2", pic="X"), G.node(1, "REC-2", pic="X(4)")],
+        lambda: [G.node(99, "X-99", pic="X"), G.node(99, "Y-99", pic="X")],
+        lambda: [G.node(88, "FLAG-2", value="'N'"), G.node(5, "A", pic="X"), G.node(10, "B", pic="9")],
+        # REDEFINES among items attached below the first entry: resolved there / no such sibling there (structure raises
+        # ValueError; without the first entry the item is a root, whose REDEFINES clause is not looked at)
+        lambda: [G.node(99, "A", pic="X"), G.node(99, "B", pic="X", redefines="A")],
+        lambda: [G.node(99, "B", pic="X", redefines="A")],
+    ]
+    for mk_first in firsts:
+        for mk_rest in follows:
+            yield [mk_first()] + mk_rest()
+
+
 def inputs(ctx):
     rng = ctx.rng
     quick = ctx.tier == "quick"
@@ -159,6 +189,8 @@ def inputs(ctx):
 
     # ---- arbitrary level sequences, unique names
     lvsets = [[1, 5, 10, 15], [1, 2, 3, 4, 5], [0, 1, 2, 49, 50, 66, 77, 88, 99], [1, 5, 5, 10, 88, 66], [3, 7, 49]]
+    # a first entry of level 66/77/88 is the trigger of known finding 8 (stream first-entry-special): not in these streams
+    plain = lambda lv: [x for x in lv if x not in (66, 77, 88)]
 
     def uniq_names():
         k = [0]
@@ -168,24 +200,38 @@ def inputs(ctx):
             return f"{rng.choice(G.STEMS)}-{k[0]}"
         return f
     for i in range(400 * scale):
-        f = flat_forest(rng, rng.randint(1, 14), rng.choice(lvsets), uniq_names(), p_redef=rng.choice([0, 0.1, 0.3]))
+        lv = rng.choice(lvsets)
+        f = flat_forest(rng, rng.randint(1, 14), lv, uniq_names(), p_redef=rng.choice([0, 0.1, 0.3]), first=plain(lv))
         yield "wild_unique", make_case(rng, f, **spelling(rng))
 
     # ---- arbitrary level sequences, colliding names (REDEFINES with zero / one / several matches)
     for i in range(400 * scale):
         pool = rng.sample(G.STEMS, rng.randint(1, 4))
-        f = flat_forest(rng, rng.randint(1, 12), rng.choice(lvsets), lambda: rng.choice(pool), p_redef=rng.choice([0.2, 0.5]),
-                        p_filler=rng.choice([0.1, 0.4]))
+        lv = rng.choice(lvsets)
+        f = flat_forest(rng, rng.randint(1, 12), lv, lambda: rng.choice(pool), p_redef=rng.choice([0.2, 0.5]),
+                        p_filler=rng.choice([0.1, 0.4]), first=plain(lv))
         yield "wild_collide", make_case(rng, f, **spelling(rng))
 
-    # ---- first entry is a 66/77/88 level (never filtered)
+    # ---- known finding 8: the first entry is a 66/77/88 level (structure() keeps its first node whatever the level)
+    for f in first_special_forests():
+        yield "first-entry-special", make_case(rng, f, spelled=False)
+        yield "first-entry-special", make_case(rng, f, **spelling(rng))
+    for i in range(40 * scale):
+        # a special first entry in front of generated well-formed records (no REDEFINES, no OCCURS: other findings' triggers)
+        lv = rng.choice([66, 77, 88])
+        first = (G.node(77, "W-77", pic=rng.choice(["X", "9(3)", "X(10)"])) if lv == 77 else
+                 G.node(88, "FLAG-88", value=rng.choice(["'Y'", "ZERO", "'AB'"])) if lv == 88 else
+                 G.node(66, "REN-66", renames=("F-A", rng.choice([None, "F-B"]))))
+        f = [first] + G.gen_forest(rng, max_depth=rng.choice([2, 3]), budget=rng.choice([4, 8, 15]), p_redefines=0, p_occurs=0,
+                                   records=rng.choice([1, 1, 2]))
+        yield "first-entry-special", make_case(rng, f, **spelling(rng))
     for i in range(60 * scale):
         f = flat_forest(rng, rng.randint(1, 8), [1, 5, 10, 88, 77], uniq_names(), first=[66, 77, 88], p_redef=0)
-        yield "first_skipped", make_case(rng, f, **spelling(rng))
+        yield "first-entry-special", make_case(rng, f, **spelling(rng))
 
     # ---- FILLER numbering: many unnamed entries, several records, unnamed 88s
     for i in range(150 * scale):
-        f = flat_forest(rng, rng.randint(2, 16), [1, 5, 5, 10, 10, 88], uniq_names(), p_filler=0.7, p_redef=0)
+        f = flat_forest(rng, rng.randint(2, 16), [1, 5, 5, 10, 10, 88], uniq_names(), p_filler=0.7, p_redef=0, first=[1, 5, 10])
         yield "fillers", make_case(rng, f, **spelling(rng))
 
     # ---- known finding 1: last entry lost (no final line feed / last line reaches column 72)
